@@ -33,6 +33,11 @@ func (k msgServer) AddFeeToDispute(goCtx context.Context,
 	if err != nil {
 		return nil, err
 	}
+	// fee is collected only while the dispute waits for its funding: once it is voted on, resolved, failed or
+	// executed a payment must not slash the reporter and open the vote again
+	if dispute.DisputeStatus != types.Prevote {
+		return nil, types.ErrDisputeFeeAlreadyMet
+	}
 	// if disputed reporter wants to add to fee, they have to use free floating tokens
 	if sender.Equals(sdk.MustAccAddressFromBech32(dispute.InitialEvidence.Reporter)) && msg.PayFromBond {
 		return nil, errors.New("disputed reporter can't add fee from bond")
